@@ -829,6 +829,12 @@ static struct gres do_get(const char *acc, const char *name, void *buf, size_t c
 	r.ret = xcm_attr_get_str(subj, name, buf, cap);
     else if (!strcmp(acc, "bin"))
 	r.ret = xcm_attr_get_bin(subj, name, buf, cap);
+    else if (!strcmp(acc, "fbool"))
+	r.ret = xcm_attr_getf_bool(subj, buf, "%s", name);
+    else if (!strcmp(acc, "fint64"))
+	r.ret = xcm_attr_getf_int64(subj, buf, "%s", name);
+    else if (!strcmp(acc, "fdouble"))
+	r.ret = xcm_attr_getf_double(subj, buf, "%s", name);
     else if (!strcmp(acc, "fstr"))
 	r.ret = xcm_attr_getf_str(subj, buf, cap, "%s", name);
     else if (!strcmp(acc, "fbin"))
@@ -842,9 +848,9 @@ static struct gres do_get(const char *acc, const char *name, void *buf, size_t c
 
 static long acc_cap(const char *acc)
 {
-    if (!strcmp(acc, "bool"))
+    if (!strcmp(acc, "bool") || !strcmp(acc, "fbool"))
 	return 1;
-    if (!strcmp(acc, "int64") || !strcmp(acc, "double"))
+    if (!strcmp(acc, "int64") || !strcmp(acc, "double") || !strcmp(acc, "fint64") || !strcmp(acc, "fdouble"))
 	return 8;
     return -1;
 }
